@@ -1,13 +1,13 @@
 import SqlgrepModel.Lemmas.JsonGrammar
 /-
-An executable JSON parser and the proof that it is COMPLETE for the denotation relations of
-`Spec/JsonGrammar.lean`: whenever the grammar says that a text denotes a value, the parser computes exactly
-that value. Consequences: the grammar is unambiguous (a text has at most one denotation, `ValD.unique`,
-`ObjD.unique`), and `parseJson cs = none` proves that no derivation of `cs` with a denotation exists, so the
-grammar can be tested on concrete texts by `decide`.
+An executable JSON parser and the proof that it DECIDES the denotation relations of `Spec/JsonGrammar.lean`:
+`parseJson cs = some x ↔ JsonTextD cs x` (`parseJson_iff`: complete — whenever the grammar says that a text
+denotes a value the parser computes exactly that value — and sound — whatever it returns is a denotation by
+the grammar). Consequences: the grammar is unambiguous (a text has at most one denotation, `ValD.unique`,
+`ObjD.unique`), and the grammar can be evaluated on concrete texts by `decide`, acceptance and rejection alike.
 
-The parser is liberal about whitespace (it skips it before every token and after every value); that is
-harmless for completeness, which is the only direction proved and used.
+The parser skips whitespace before every token and after every value; `JsonTextD` (`ws value ws`) is what it
+decides.
 -/
 namespace Sqlgrep.JsonGrammar
 
@@ -642,6 +642,447 @@ theorem no_denotation_of_parse_none {cs : List Char} (h : parseJson cs = none) :
   intro ⟨x, hx⟩
   rw [parseJson_complete hx] at h
   cases h
+
+/-! ### soundness: what the parser returns is a denotation by the grammar -/
+
+/-- `dropWs` removes a whitespace prefix and stops at a non-whitespace character -/
+theorem dropWs_spec (l : List Char) : ∃ a, Ws a ∧ l = a ++ dropWs l := by
+  induction l with
+  | nil => exact ⟨[], ws_nil, rfl⟩
+  | cons c t ih =>
+    by_cases hc : WsChar c
+    · obtain ⟨a, ha, he⟩ := ih
+      refine ⟨c :: a, ?_, ?_⟩
+      · intro x hx
+        cases hx with
+        | head => exact hc
+        | tail _ hx => exact ha x hx
+      · simp only [dropWs, hc, if_true, List.cons_append]; rw [← he]
+    · exact ⟨[], ws_nil, by simp only [dropWs, hc, if_false, List.nil_append]⟩
+
+theorem dropWs_eq_nil {l : List Char} (h : dropWs l = []) : Ws l := by
+  obtain ⟨a, ha, he⟩ := dropWs_spec l
+  rw [h, List.append_nil] at he
+  rw [he]; exact ha
+
+theorem stripLit_sound : ∀ (p cs r : List Char), stripLit p cs = some r → cs = p ++ r
+  | [], cs, r, h => by simp only [stripLit, Option.some.injEq] at h; simp [h]
+  | _ :: _, [], r, h => by simp [stripLit] at h
+  | p :: ps, c :: cs, r, h => by
+    simp only [stripLit] at h
+    split at h
+    · rename_i hpc; subst hpc; rw [stripLit_sound ps cs r h]; rfl
+    · cases h
+
+theorem spanNum_spec (cs : List Char) : cs = (spanNum cs).1 ++ (spanNum cs).2 := by
+  induction cs with
+  | nil => rfl
+  | cons c cs ih =>
+    by_cases hc : NumChar c
+    · simp only [spanNum, hc, if_true, List.cons_append]; rw [← ih]
+    · simp only [spanNum, hc, if_false, List.nil_append]
+
+theorem escapeLookup_sound {e x : Char} (h : escapeLookup e = some x) : (e, x) ∈ escapeTable := by
+  unfold escapeLookup at h
+  cases hf : escapeTable.find? (fun p => p.1 == e) with
+  | none => rw [hf] at h; cases h
+  | some p =>
+    rw [hf] at h
+    simp only [Option.map_some, Option.some.injEq] at h
+    have hm := List.mem_of_find?_eq_some hf
+    have hp := List.find?_some hf
+    simp only [beq_iff_eq] at hp
+    obtain ⟨p1, p2⟩ := p
+    simp only at hp h
+    subst hp; subst h
+    exact hm
+
+theorem charsD_single {c : List Char} {x : Char} {cs xs : List Char} (h : StrCharD c x) (hs : CharsD cs xs) :
+    CharsD (c ++ cs) (x :: xs) := .cons h hs
+
+theorem parseChars_sound : ∀ (n : Nat) (cs : List Char), cs.length ≤ n → ∀ (xs r : List Char),
+    parseChars cs = some (xs, r) → ∃ body, cs = body ++ '"' :: r ∧ CharsD body xs := by
+  intro n
+  induction n with
+  | zero =>
+    intro cs hl xs r h
+    cases cs with
+    | nil => rw [parseChars.eq_def] at h; cases h
+    | cons _ _ => simp at hl
+  | succ n ih =>
+    intro cs hl xs r h
+    cases cs with
+    | nil => rw [parseChars.eq_def] at h; cases h
+    | cons c rest =>
+      simp only [List.length_cons] at hl
+      rw [parseChars.eq_def] at h
+      simp only at h
+      by_cases hq : c = '"'
+      · simp only [hq, if_true, Option.some.injEq, Prod.mk.injEq] at h
+        obtain ⟨rfl, rfl⟩ := h
+        exact ⟨[], by simp [hq], .nil⟩
+      simp only [hq, if_false] at h
+      by_cases hb : c = '\\'
+      · simp only [hb, if_true] at h
+        cases rest with
+        | nil => cases h
+        | cons e rest1 =>
+          simp only [List.length_cons] at hl
+          simp only at h
+          by_cases hu : e = 'u'
+          · simp only [hu, if_true] at h
+            rcases rest1 with _ | ⟨a, _ | ⟨b, _ | ⟨c', _ | ⟨d, rest2⟩⟩⟩⟩ <;> try (cases h)
+            simp only [List.length_cons] at hl
+            simp only at h
+            cases hh : hex4 a b c' d with
+            | none => rw [hh] at h; cases h
+            | some nn =>
+              rw [hh] at h
+              simp only at h
+              by_cases hn : nn < 0xD800 ∨ 0xE000 ≤ nn
+              · rw [if_pos hn] at h
+                cases hp : parseChars rest2 with
+                | none => rw [hp] at h; cases h
+                | some sr =>
+                  obtain ⟨s, r'⟩ := sr
+                  rw [hp] at h
+                  simp only [Option.some.injEq, Prod.mk.injEq] at h
+                  obtain ⟨rfl, rfl⟩ := h
+                  obtain ⟨body, hbody, hcd⟩ := ih rest2 (by omega) s r' hp
+                  refine ⟨['\\', 'u', a, b, c', d] ++ body, ?_, .cons (.unicode hh hn) hcd⟩
+                  rw [hb, hu, hbody]; rfl
+              · rw [if_neg hn] at h
+                by_cases hhi : nn < 0xDC00
+                · rw [if_pos hhi] at h
+                  rcases rest2 with _ | ⟨b1, _ | ⟨u1, _ | ⟨e', _ | ⟨f, _ | ⟨g, _ | ⟨h', rest3⟩⟩⟩⟩⟩⟩ <;> try (cases h)
+                  simp only [List.length_cons] at hl
+                  simp only at h
+                  by_cases hbu : b1 = '\\' ∧ u1 = 'u'
+                  · rw [if_pos hbu] at h
+                    cases hh2 : hex4 e' f g h' with
+                    | none => rw [hh2] at h; cases h
+                    | some lo =>
+                      rw [hh2] at h
+                      simp only at h
+                      by_cases hlo : 0xDC00 ≤ lo ∧ lo < 0xE000
+                      · rw [if_pos hlo] at h
+                        cases hp : parseChars rest3 with
+                        | none => rw [hp] at h; cases h
+                        | some sr =>
+                          obtain ⟨s, r'⟩ := sr
+                          rw [hp] at h
+                          simp only [Option.some.injEq, Prod.mk.injEq] at h
+                          obtain ⟨rfl, rfl⟩ := h
+                          obtain ⟨body, hbody, hcd⟩ := ih rest3 (by omega) s r' hp
+                          refine ⟨['\\', 'u', a, b, c', d, '\\', 'u', e', f, g, h'] ++ body, ?_,
+                            .cons (.surrogates hh hh2 (by omega) hhi hlo.1 hlo.2) hcd⟩
+                          rw [hb, hu, hbu.1, hbu.2, hbody]; rfl
+                      · rw [if_neg hlo] at h; cases h
+                  · rw [if_neg hbu] at h; cases h
+                · rw [if_neg hhi] at h; cases h
+          · simp only [hu, if_false] at h
+            cases hl' : escapeLookup e with
+            | none => rw [hl'] at h; cases h
+            | some x =>
+              rw [hl'] at h
+              simp only at h
+              cases hp : parseChars rest1 with
+              | none => rw [hp] at h; cases h
+              | some sr =>
+                obtain ⟨s, r'⟩ := sr
+                rw [hp] at h
+                simp only [Option.some.injEq, Prod.mk.injEq] at h
+                obtain ⟨rfl, rfl⟩ := h
+                obtain ⟨body, hbody, hcd⟩ := ih rest1 (by omega) s r' hp
+                refine ⟨['\\', e] ++ body, ?_, .cons (.escape (escapeLookup_sound hl')) hcd⟩
+                rw [hb, hbody]; rfl
+      · simp only [hb, if_false] at h
+        by_cases hun : Unescaped c
+        · rw [if_pos hun] at h
+          cases hp : parseChars rest with
+          | none => rw [hp] at h; cases h
+          | some sr =>
+            obtain ⟨s, r'⟩ := sr
+            rw [hp] at h
+            simp only [Option.some.injEq, Prod.mk.injEq] at h
+            obtain ⟨rfl, rfl⟩ := h
+            obtain ⟨body, hbody, hcd⟩ := ih rest (by omega) s r' hp
+            refine ⟨[c] ++ body, ?_, .cons (.unescaped hun) hcd⟩
+            rw [hbody]; rfl
+        · rw [if_neg hun] at h; cases h
+
+
+/-- `dropWs l = c :: t`: `l` is whitespace, then `c :: t` -/
+theorem dropWs_cons_spec {l : List Char} {c : Char} {t : List Char} (h : dropWs l = c :: t) :
+    ∃ a, Ws a ∧ l = a ++ c :: t := by
+  obtain ⟨a, ha, he⟩ := dropWs_spec l
+  rw [h] at he
+  exact ⟨a, ha, he⟩
+
+def ValSound (fuel : Nat) : Prop := ∀ cs x r, parseVal fuel cs = some (x, r) →
+  ∃ w v rest, Ws w ∧ ValD v x ∧ cs = w ++ v ++ rest ∧ r = dropWs rest
+def MembersSound (fuel : Nat) : Prop := ∀ cs xs r, parseMembers fuel cs = some (xs, r) →
+  ∃ w ms e rest, Ws w ∧ MembersD ms xs ∧ Sep '}' e ∧ cs = w ++ ms ++ e ++ rest ∧ r = dropWs rest
+def MemberSound (fuel : Nat) : Prop := ∀ cs m r, parseMember fuel cs = some (m, r) →
+  ∃ w t rest, Ws w ∧ MemberD t m ∧ cs = w ++ t ++ rest ∧ r = dropWs rest
+def ElemsSound (fuel : Nat) : Prop := ∀ cs xs r, parseElems fuel cs = some (xs, r) →
+  ∃ w vs e rest, Ws w ∧ ElemsD vs xs ∧ Sep ']' e ∧ cs = w ++ vs ++ e ++ rest ∧ r = dropWs rest
+
+theorem valSound_succ (f : Nat) (ims : MembersSound f) (ies : ElemsSound f) : ValSound (f + 1) := by
+  intro cs x r h
+  rw [parseVal] at h
+  cases hd : dropWs cs with
+  | nil => rw [hd] at h; cases h
+  | cons c t =>
+    obtain ⟨w, hw, hcs⟩ := dropWs_cons_spec hd
+    rw [hd] at h
+    simp only at h
+    have lit : ∀ (lit : List Char) (y : JVal), ValD (c :: lit) y →
+        (match stripLit lit t with
+          | some r => some (y, dropWs r)
+          | none => none) = some (x, r) →
+        ∃ w v rest, Ws w ∧ ValD v x ∧ cs = w ++ v ++ rest ∧ r = dropWs rest := by
+      intro lit y hy h
+      cases hs : stripLit lit t with
+      | none => rw [hs] at h; cases h
+      | some r1 =>
+        rw [hs] at h
+        simp only [Option.some.injEq, Prod.mk.injEq] at h
+        obtain ⟨rfl, rfl⟩ := h
+        have := stripLit_sound lit t r1 hs
+        exact ⟨w, c :: lit, r1, hw, hy, by rw [hcs, this]; simp, rfl⟩
+    by_cases h1 : c = '"'
+    · simp only [h1, if_true] at h
+      cases hp : parseChars t with
+      | none => rw [hp] at h; cases h
+      | some sr =>
+        obtain ⟨s, r1⟩ := sr
+        rw [hp] at h
+        simp only [Option.some.injEq, Prod.mk.injEq] at h
+        obtain ⟨rfl, rfl⟩ := h
+        obtain ⟨body, hbody, hcd⟩ := parseChars_sound t.length t (Nat.le_refl _) s r1 hp
+        exact ⟨w, '"' :: body ++ ['"'], r1, hw, .string (.mk hcd), by rw [hcs, h1, hbody]; simp, rfl⟩
+    simp only [h1, if_false] at h
+    by_cases h2 : c = '{'
+    · simp only [h2, if_true] at h
+      cases hd2 : dropWs t with
+      | nil => rw [hd2] at h; cases h
+      | cons c2 t2 =>
+        obtain ⟨a, ha, ht⟩ := dropWs_cons_spec hd2
+        rw [hd2] at h
+        simp only at h
+        by_cases hc2 : c2 = '}'
+        · simp only [hc2, if_true, Option.some.injEq, Prod.mk.injEq] at h
+          obtain ⟨rfl, rfl⟩ := h
+          refine ⟨[], (w ++ '{' :: a) ++ ['}'], t2, ws_nil, .object (.empty ⟨w, a, hw, ha, rfl⟩ (sep_bare '}')), ?_, rfl⟩
+          rw [hcs, h2, ht, hc2]; simp
+        · simp only [hc2, if_false] at h
+          cases hm : parseMembers f (c2 :: t2) with
+          | none => rw [hm] at h; cases h
+          | some mr =>
+            obtain ⟨ms, r'⟩ := mr
+            rw [hm] at h
+            simp only [Option.some.injEq, Prod.mk.injEq] at h
+            obtain ⟨rfl, rfl⟩ := h
+            obtain ⟨w', mt, e, rest, hw', hmd, he, hct, hr⟩ := ims _ _ _ hm
+            refine ⟨[], (w ++ '{' :: (a ++ w')) ++ mt ++ e, rest, ws_nil,
+              .object (.members ⟨w, a ++ w', hw, ws_append ha hw', rfl⟩ hmd he), ?_, hr⟩
+            rw [hcs, h2, ht, hct]; simp
+    simp only [h2, if_false] at h
+    by_cases h3 : c = '['
+    · simp only [h3, if_true] at h
+      cases hd2 : dropWs t with
+      | nil => rw [hd2] at h; cases h
+      | cons c2 t2 =>
+        obtain ⟨a, ha, ht⟩ := dropWs_cons_spec hd2
+        rw [hd2] at h
+        simp only at h
+        by_cases hc2 : c2 = ']'
+        · simp only [hc2, if_true, Option.some.injEq, Prod.mk.injEq] at h
+          obtain ⟨rfl, rfl⟩ := h
+          refine ⟨[], (w ++ '[' :: a) ++ [']'], t2, ws_nil, .array (.empty ⟨w, a, hw, ha, rfl⟩ (sep_bare ']')), ?_, rfl⟩
+          rw [hcs, h3, ht, hc2]; simp
+        · simp only [hc2, if_false] at h
+          cases hm : parseElems f (c2 :: t2) with
+          | none => rw [hm] at h; cases h
+          | some mr =>
+            obtain ⟨xs, r'⟩ := mr
+            rw [hm] at h
+            simp only [Option.some.injEq, Prod.mk.injEq] at h
+            obtain ⟨rfl, rfl⟩ := h
+            obtain ⟨w', vt, e, rest, hw', hvd, he, hct, hr⟩ := ies _ _ _ hm
+            refine ⟨[], (w ++ '[' :: (a ++ w')) ++ vt ++ e, rest, ws_nil,
+              .array (.elements ⟨w, a ++ w', hw, ws_append ha hw', rfl⟩ hvd he), ?_, hr⟩
+            rw [hcs, h3, ht, hct]; simp
+    simp only [h3, if_false] at h
+    by_cases h4 : c = 't'
+    · simp only [h4, if_true] at h
+      exact lit ['r', 'u', 'e'] (.bool true) (by rw [h4]; exact .true) h
+    simp only [h4, if_false] at h
+    by_cases h5 : c = 'f'
+    · simp only [h5, if_true] at h
+      exact lit ['a', 'l', 's', 'e'] (.bool false) (by rw [h5]; exact .false) h
+    simp only [h5, if_false] at h
+    by_cases h6 : c = 'n'
+    · simp only [h6, if_true] at h
+      exact lit ['u', 'l', 'l'] .null (by rw [h6]; exact .null) h
+    simp only [h6, if_false] at h
+    cases hn : numValue (spanNum (c :: t)).1 with
+    | none => rw [hn] at h; cases h
+    | some d =>
+      rw [hn] at h
+      simp only [Option.some.injEq, Prod.mk.injEq] at h
+      obtain ⟨rfl, rfl⟩ := h
+      refine ⟨w, (spanNum (c :: t)).1, (spanNum (c :: t)).2, hw, .number (numValue_sound hn), ?_, rfl⟩
+      rw [hcs, List.append_assoc, ← spanNum_spec]
+
+theorem membersSound_succ (f : Nat) (im : MemberSound f) (ims : MembersSound f) : MembersSound (f + 1) := by
+  intro cs xs r h
+  rw [parseMembers] at h
+  cases hm : parseMember f cs with
+  | none => rw [hm] at h; cases h
+  | some mr =>
+    obtain ⟨m, r1⟩ := mr
+    rw [hm] at h
+    simp only at h
+    obtain ⟨w, t, rest1, hw, hmd, hcs, hr1⟩ := im _ _ _ hm
+    cases r1 with
+    | nil => cases h
+    | cons c t1 =>
+      obtain ⟨a, ha, hrest⟩ := dropWs_cons_spec hr1.symm
+      simp only at h
+      by_cases hc : c = '}'
+      · simp only [hc, if_true, Option.some.injEq, Prod.mk.injEq] at h
+        obtain ⟨rfl, rfl⟩ := h
+        refine ⟨w, t, a ++ ['}'], t1, hw, .one hmd, ⟨a, [], ha, ws_nil, rfl⟩, ?_, rfl⟩
+        rw [hcs, hrest, hc]; simp
+      · simp only [hc, if_false] at h
+        by_cases hc' : c = ','
+        · simp only [hc', if_true] at h
+          cases hms : parseMembers f t1 with
+          | none => rw [hms] at h; cases h
+          | some msr =>
+            obtain ⟨ms', r'⟩ := msr
+            rw [hms] at h
+            simp only [Option.some.injEq, Prod.mk.injEq] at h
+            obtain ⟨rfl, rfl⟩ := h
+            obtain ⟨w2, mt, e, rest, hw2, hmsd, he, ht1, hr⟩ := ims _ _ _ hms
+            refine ⟨w, t ++ (a ++ ',' :: w2) ++ mt, e, rest, hw, .cons hmd ⟨a, w2, ha, hw2, rfl⟩ hmsd, he, ?_, hr⟩
+            rw [hcs, hrest, hc', ht1]; simp
+        · simp only [hc', if_false] at h; cases h
+
+theorem memberSound_succ (f : Nat) (iv : ValSound f) : MemberSound (f + 1) := by
+  intro cs m r h
+  rw [parseMember] at h
+  cases hd : dropWs cs with
+  | nil => rw [hd] at h; cases h
+  | cons c t =>
+    obtain ⟨w, hw, hcs⟩ := dropWs_cons_spec hd
+    rw [hd] at h
+    simp only at h
+    by_cases h1 : c = '"'
+    · simp only [h1, if_true] at h
+      cases hp : parseChars t with
+      | none => rw [hp] at h; cases h
+      | some sr =>
+        obtain ⟨k, r1⟩ := sr
+        rw [hp] at h
+        simp only at h
+        obtain ⟨body, hbody, hcd⟩ := parseChars_sound t.length t (Nat.le_refl _) k r1 hp
+        cases hd2 : dropWs r1 with
+        | nil => rw [hd2] at h; cases h
+        | cons c2 t2 =>
+          obtain ⟨a, ha, hr1⟩ := dropWs_cons_spec hd2
+          rw [hd2] at h
+          simp only at h
+          by_cases h2 : c2 = ':'
+          · simp only [h2, if_true] at h
+            cases hv : parseVal f t2 with
+            | none => rw [hv] at h; cases h
+            | some vr =>
+              obtain ⟨x, r2⟩ := vr
+              rw [hv] at h
+              simp only [Option.some.injEq, Prod.mk.injEq] at h
+              obtain ⟨rfl, rfl⟩ := h
+              obtain ⟨w2, v, rest, hw2, hvd, ht2, hr⟩ := iv _ _ _ hv
+              refine ⟨w, ('"' :: body ++ ['"']) ++ (a ++ ':' :: w2) ++ v, rest, hw,
+                .mk (.mk hcd) ⟨a, w2, ha, hw2, rfl⟩ hvd, ?_, hr⟩
+              rw [hcs, h1, hbody, hr1, h2, ht2]; simp
+          · simp only [h2, if_false] at h; cases h
+    · simp only [h1, if_false] at h; cases h
+
+theorem elemsSound_succ (f : Nat) (iv : ValSound f) (ies : ElemsSound f) : ElemsSound (f + 1) := by
+  intro cs xs r h
+  rw [parseElems] at h
+  cases hm : parseVal f cs with
+  | none => rw [hm] at h; cases h
+  | some mr =>
+    obtain ⟨x, r1⟩ := mr
+    rw [hm] at h
+    simp only at h
+    obtain ⟨w, v, rest1, hw, hvd, hcs, hr1⟩ := iv _ _ _ hm
+    cases r1 with
+    | nil => cases h
+    | cons c t1 =>
+      obtain ⟨a, ha, hrest⟩ := dropWs_cons_spec hr1.symm
+      simp only at h
+      by_cases hc : c = ']'
+      · simp only [hc, if_true, Option.some.injEq, Prod.mk.injEq] at h
+        obtain ⟨rfl, rfl⟩ := h
+        refine ⟨w, v, a ++ [']'], t1, hw, .one hvd, ⟨a, [], ha, ws_nil, rfl⟩, ?_, rfl⟩
+        rw [hcs, hrest, hc]; simp
+      · simp only [hc, if_false] at h
+        by_cases hc' : c = ','
+        · simp only [hc', if_true] at h
+          cases hms : parseElems f t1 with
+          | none => rw [hms] at h; cases h
+          | some msr =>
+            obtain ⟨xs', r'⟩ := msr
+            rw [hms] at h
+            simp only [Option.some.injEq, Prod.mk.injEq] at h
+            obtain ⟨rfl, rfl⟩ := h
+            obtain ⟨w2, vt, e, rest, hw2, hvsd, he, ht1, hr⟩ := ies _ _ _ hms
+            refine ⟨w, v ++ (a ++ ',' :: w2) ++ vt, e, rest, hw, .cons hvd ⟨a, w2, ha, hw2, rfl⟩ hvsd, he, ?_, hr⟩
+            rw [hcs, hrest, hc', ht1]; simp
+        · simp only [hc', if_false] at h; cases h
+
+theorem all_sound : ∀ fuel, ValSound fuel ∧ MembersSound fuel ∧ MemberSound fuel ∧ ElemsSound fuel := by
+  intro fuel
+  induction fuel with
+  | zero =>
+    refine ⟨?_, ?_, ?_, ?_⟩
+    · intro cs x r h; simp [parseVal] at h
+    · intro cs x r h; simp [parseMembers] at h
+    · intro cs x r h; simp [parseMember] at h
+    · intro cs x r h; simp [parseElems] at h
+  | succ f ih =>
+    obtain ⟨iv, ims, im, ies⟩ := ih
+    exact ⟨valSound_succ f ims ies, membersSound_succ f im ims, memberSound_succ f iv, elemsSound_succ f iv ies⟩
+
+/-- soundness: what the parser returns is a denotation by the grammar -/
+theorem parseJson_sound {cs : List Char} {x : JVal} (h : parseJson cs = some x) : JsonTextD cs x := by
+  unfold parseJson at h
+  cases hp : parseVal (cs.length + 1) cs with
+  | none => rw [hp] at h; cases h
+  | some xr =>
+    obtain ⟨y, r⟩ := xr
+    rw [hp] at h
+    cases r with
+    | cons _ _ => cases h
+    | nil =>
+      simp only [Option.some.injEq] at h
+      subst h
+      obtain ⟨w, v, rest, hw, hvd, hcs, hr⟩ := (all_sound _).1 _ _ _ hp
+      exact ⟨w, v, rest, hw, hvd, dropWs_eq_nil hr.symm, hcs⟩
+
+/-- **the parser decides the grammar**: `parseJson cs = some x` iff `cs` is a JSON text denoting `x` -/
+theorem parseJson_iff (cs : List Char) (x : JVal) : parseJson cs = some x ↔ JsonTextD cs x :=
+  ⟨parseJson_sound, fun ⟨_, _, _, ha, hv, hb, he⟩ => by rw [he]; exact parseJson_complete_text ha hv hb⟩
+
+theorem JsonTextD.jsonText {cs : List Char} {x : JVal} (h : JsonTextD cs x) : JsonText cs := by
+  obtain ⟨a, v, b, ha, hv, hb, he⟩ := h
+  exact ⟨a, v, b, ha, hv.val, hb, he⟩
+
 
 /-! ### decidable equality of JSON values (for `decide` on concrete texts) -/
 
